@@ -142,15 +142,15 @@ fn nontrivial<const D: usize>(pts: &[[f64; D]]) -> bool {
 
 #[derive(Default)]
 struct Track {
-    /// worst observed error / allowance per function
-    worst: BTreeMap<String, f64>,
+    /// worst observed error / allowance per check, with the family and dimension it occurred in
+    worst: BTreeMap<String, (f64, String)>,
 }
 
 impl Track {
-    fn see(&mut self, key: &str, r: f64) {
-        let e = self.worst.entry(key.to_string()).or_insert(0.0);
-        if r > *e {
-            *e = r;
+    fn see(&mut self, key: &str, r: f64, fam: &str, d: usize) {
+        let e = self.worst.entry(key.to_string()).or_insert((0.0, String::new()));
+        if r > e.0 {
+            *e = (r, format!("{}/D{}", fam, d));
         }
     }
 }
@@ -403,6 +403,7 @@ impl<'a, const D: usize> Cx<'a, D> {
             Ok(Ok(dt)) => dt,
             Ok(Err(_)) => {
                 self.out.count("quality/dt_construction_err");
+                self.out.count(&format!("quality/dt_construction_err/{}", self.fam));
                 return None;
             }
             Err(_) => {
@@ -476,7 +477,7 @@ impl<'a, const D: usize> Cx<'a, D> {
     }
 
     fn report_rel(&mut self, name: &str, check: &str, eval: &[[f64; D]], ok: bool, err: f64, tol: f64, expected: f64, got: f64) {
-        self.trk.see(&format!("{}/{}", check, name), err / tol);
+        self.trk.see(&format!("{}/{}", check, name), err / tol, self.fam, D);
         self.out.count(&format!("judged/{}/{}", check, name));
         if !ok {
             let d = self.doc(name, check, eval, json!(expected), json!(got), json!({"relerr": err, "allowed": tol}));
@@ -535,7 +536,7 @@ impl<'a, const D: usize> Cx<'a, D> {
                             bad = Some((j, err, allowed));
                         }
                     }
-                    self.trk.see("abserr/circumcenter", worst);
+                    self.trk.see("abserr/circumcenter", worst, self.fam, D);
                     self.out.count("judged/abserr/circumcenter");
                     if let Some((j, err, allowed)) = bad {
                         let exp: Vec<f64> = (0..D).map(|k| o.center[k] + shift.map(|s| s[k]).unwrap_or(0.0)).collect();
@@ -589,7 +590,7 @@ impl<'a, const D: usize> Cx<'a, D> {
 
     fn pair(&mut self, name: &str, check: &str, eval: &[[f64; D]], a: f64, b: f64, tol: f64, what: &str) {
         let err = (a - b).abs() / a.abs().max(b.abs()).max(f64::MIN_POSITIVE);
-        self.trk.see(&format!("{}/{}", check, name), err / tol);
+        self.trk.see(&format!("{}/{}", check, name), err / tol, self.fam, D);
         self.out.count(&format!("judged/{}/{}", check, name));
         if !(err <= tol) {
             let d = self.doc(name, check, eval, json!(a), json!(b), json!({"relerr": err, "allowed": tol, "what": what}));
@@ -694,7 +695,7 @@ fn judge_nondeg<const D: usize>(cx: &mut Cx<D>, o: &Oracle<D>, rng: &mut Rng, np
                     bad = Some((j, mn, mx, allowed));
                 }
             }
-            cx.trk.see("perm/circumcenter", worst);
+            cx.trk.see("perm/circumcenter", worst, cx.fam, D);
             cx.out.count("judged/perm/circumcenter");
             if let Some((j, mn, mx, allowed)) = bad {
                 let d = cx.doc("circumcenter", "perm", &base, json!(o.center.to_vec()), json!([mn, mx]), json!({"coordinate": j, "allowed": allowed}));
@@ -714,8 +715,8 @@ fn judge_nondeg<const D: usize>(cx: &mut Cx<D>, o: &Oracle<D>, rng: &mut Rng, np
             let mut g = f.clone();
             rng.shuffle(&mut g);
             orders.push(g);
-            let mut got: Vec<f64> = Vec::new();
-            for e in &orders {
+            let mut got: Vec<Option<f64>> = vec![None; orders.len()];
+            for (oi, e) in orders.iter().enumerate() {
                 let r = cx.lib_facet(e);
                 if let Some(x) = cx.triage("facet_measure", &r, e, comfy, o.facet[i]) {
                     if !illf {
@@ -726,13 +727,14 @@ fn judge_nondeg<const D: usize>(cx: &mut Cx<D>, o: &Oracle<D>, rng: &mut Rng, np
                         let (ok, err) = rel_exact(&lib, &o.facet_g[i], tol2);
                         cx.report_rel("facet_measure", "relerr", e, ok && x > 0.0, err / 2.0, tol2 / 2.0, o.facet[i], x);
                     }
-                    got.push(x);
+                    got[oi] = Some(x);
                 }
             }
-            if !illf && got.len() == 2 {
-                cx.pair("facet_measure", "perm", &orders[1], got[0], got[1], 4.0 * tolf, "two vertex orders");
+            if let (false, Some(a), Some(b)) = (illf, got[0], got[1]) {
+                cx.pair("facet_measure", "perm", &orders[1], a, b, 4.0 * tolf, "two vertex orders");
             }
-            facet_vals[i] = got.first().copied();
+            // the scaling law is checked against the value for the ORIGINAL vertex order only
+            facet_vals[i] = got[0];
         }
     } else {
         // D = 1: the library documents the 0-dimensional facet measure as 0 (not judged)
@@ -778,8 +780,15 @@ fn judge_nondeg<const D: usize>(cx: &mut Cx<D>, o: &Oracle<D>, rng: &mut Rng, np
     if !t.ill {
         let lg = o.max_edge.log2().floor() as i32;
         let mut done = false;
-        for _ in 0..4 {
-            let s = lg + rng.range_i64(-2, 6) as i32;
+        // lowest set bit over all coordinates: translations by multiples of it are the ones most
+        // likely to be exact for full-mantissa inputs
+        let e_min = base.iter().flat_map(|p| p.iter()).filter(|x| **x != 0.0).map(|x| Dy::from_f64(*x).e).min().unwrap_or(0) as i32;
+        for attempt in 0..6 {
+            let s = match attempt {
+                0 | 1 => lg + rng.range_i64(-2, 6) as i32,
+                2 | 3 => e_min + rng.range_i64(0, 12) as i32,
+                _ => e_min + rng.range_i64(0, 2) as i32,
+            };
             if !(-900..=900).contains(&s) {
                 continue;
             }
@@ -820,7 +829,7 @@ fn judge_nondeg<const D: usize>(cx: &mut Cx<D>, o: &Oracle<D>, rng: &mut Rng, np
                             bad = Some((j, diff, allowed));
                         }
                     }
-                    cx.trk.see("translate/circumcenter", worst);
+                    cx.trk.see("translate/circumcenter", worst, cx.fam, D);
                     cx.out.count("judged/translate/circumcenter");
                     if let Some((j, diff, allowed)) = bad {
                         let d = cx.doc("circumcenter", "translate", &e, json!(a.to_vec()), json!(b.to_vec()), json!({"coordinate": j, "t": tv.to_vec(), "diff": diff, "allowed": allowed}));
@@ -865,7 +874,7 @@ fn judge_nondeg<const D: usize>(cx: &mut Cx<D>, o: &Oracle<D>, rng: &mut Rng, np
                 cx.out.count("scaling/cases");
                 let v = cx.lib_vals(&e);
                 let f = 2f64.powi(k);
-                let mut scal = |cx: &mut Cx<D>, name: &str, a: Option<f64>, b: Option<f64>, pw: i32| match (a, b) {
+                let scal = |cx: &mut Cx<D>, name: &str, a: Option<f64>, b: Option<f64>, pw: i32| match (a, b) {
                     (Some(a), Some(b)) if a.is_finite() && b.is_finite() => {
                         let want = a * f.powi(pw);
                         if want.to_bits() == b.to_bits() {
@@ -912,7 +921,7 @@ fn judge_nondeg<const D: usize>(cx: &mut Cx<D>, o: &Oracle<D>, rng: &mut Rng, np
                         } else {
                             cx.out.count("not_bit_exact_scaling/circumcenter");
                         }
-                        cx.trk.see("scale/circumcenter", worst);
+                        cx.trk.see("scale/circumcenter", worst, cx.fam, D);
                         cx.out.count("judged/scale/circumcenter");
                         if let Some((j, want, got, allowed)) = bad {
                             let d = cx.doc("circumcenter", "scale", &e, json!(want), json!(got), json!({"coordinate": j, "k": k, "allowed": allowed}));
@@ -961,6 +970,7 @@ fn degenerate_verdict<const D: usize>(cx: &mut Cx<D>, name: &str, eval: &[[f64; 
         Res::Ok(x) if *x == 0.0 && zero_ok => cx.out.count(&format!("degenerate/{}/ok-zero", name)),
         Res::Ok(x) => {
             let d = cx.doc(name, "degenerate", eval, json!("Err"), json!(format!("Ok({:e})", x)), json!({"value": x}));
+            cx.out.count(&format!("degenerate_ok_finite/{}/D{}/{}", name, D, cx.fam));
             cx.out.violation(P, &format!("degenerate/{}/ok-finite", name), format!("{} returned Ok({:e}) on an exactly degenerate simplex (exact determinant 0); documented behaviour is Err", name, x), d);
         }
     }
@@ -993,6 +1003,7 @@ fn judge_degenerate<const D: usize>(cx: &mut Cx<D>, rng: &mut Rng, nperm: usize)
             }
             Res::Ok(c) => {
                 let d = cx.doc("circumcenter", "degenerate", &e, json!("Err"), json!(c.to_vec()), Value::Null);
+                cx.out.count(&format!("degenerate_ok_finite/circumcenter/D{}/{}", D, cx.fam));
                 cx.out.violation(P, "degenerate/circumcenter/ok-finite", format!("circumcenter returned Ok({:?}) on an exactly degenerate simplex (exact determinant 0); documented behaviour is Err", c), d);
             }
         }
@@ -1100,7 +1111,7 @@ fn gen_nondeg<const D: usize>(rng: &mut Rng) -> (Vec<[f64; D]>, &'static str) {
                     apex[j] += w * (pts[i][j] - pts[0][j]);
                 }
             }
-            let h = rng.range_i64(10, 20) as i32;
+            let h = rng.range_i64(6, 20) as i32;
             for x in apex.iter_mut() {
                 *x += rng.range_i64(-3, 3) as f64 * 2f64.powi(-h);
             }
@@ -1403,7 +1414,7 @@ pub fn run(ctx: &Ctx, out: &mut Out) {
         }
     } else {
         let nperm = if ctx.tier == Tier::Thorough { 24 } else { 6 };
-        let cap = (if ctx.tier == Tier::Thorough { 2_000_000.0 } else { 12_000.0 } * ctx.scale) as u64;
+        let cap = (if ctx.tier == Tier::Thorough { 2_000_000.0 } else { 36_000.0 } * ctx.scale) as u64;
         let mut done = 0u64;
         let mut round = 0u64;
         out.exhaustive = Some(false);
@@ -1418,7 +1429,7 @@ pub fn run(ctx: &Ctx, out: &mut Out) {
             round += 1;
         }
     }
-    let worst: Vec<String> = trk.worst.iter().map(|(k, v)| format!("{}={:.3e}", k, v)).collect();
+    let worst: Vec<String> = trk.worst.iter().map(|(k, v)| format!("{}={:.3e}[{}]", k, v.0, v.1)).collect();
     out.notes.push(format!("worst observed error/allowance per check: {}", worst.join(", ")));
     out.notes.push("definitions found in quality.rs: radius_ratio = circumradius / inradius (no 1/D normalisation); normalized_volume = volume / (mean edge length)^D (no constant)".to_string());
 }
